@@ -548,7 +548,10 @@ def calculate_icm(
     chip_percentages = [chip / chip_sum for chip in chips]
     icms = [0.0] * len(chips)
 
-    for player_indices in permutations(range(len(chips)), len(payouts)):
+    for player_indices in permutations(
+            range(len(chips)),
+            min(len(payouts), len(chips)),
+    ):
         probability = 1.0
         denominator = 1.0
 
